@@ -84,7 +84,7 @@ class Infeasible(Exception):
 
 
 class Frame:
-    __slots__ = ("body", "locals", "bb", "si", "uid", "dest", "target", "note")
+    __slots__ = ("body", "locals", "bb", "si", "uid", "dest", "target", "note", "post")
 
     def __init__(self, body, uid, dest=None, target=None):
         self.body = body
@@ -95,6 +95,7 @@ class Frame:
         self.dest = dest
         self.target = target
         self.note = None
+        self.post = None  # continuation applied to the return value (models of map/map_err/...)
 
     def clone(self):
         f = Frame(self.body, self.uid, self.dest, self.target)
@@ -102,6 +103,7 @@ class Frame:
         f.bb = self.bb
         f.si = self.si
         f.note = self.note
+        f.post = self.post
         return f
 
 
@@ -842,6 +844,8 @@ class Machine:
             fr.bb, fr.si = self.switch(st, d, t), 0
         elif k == "return":
             ret = fr.locals.get(0, UNIT)
+            if fr.post is not None:
+                ret = fr.post(self, st, ret)
             if len(st.frames) == 1:
                 if not keep_frames:
                     st.frames.pop()
@@ -911,8 +915,8 @@ class Machine:
             if body is not None:
                 return self.push_frame(st, fr, t, body, args)
             raise AnalysisError("unmodelled call to %s (%s) at %s:%d" % (callee["full"], "resolved" if callee["resolved"] else "unresolved", t["span"]["file"], t["span"]["line"]))
-        if isinstance(r, tuple) and len(r) == 3 and r[0] is INLINE:
-            return self.push_frame(st, fr, t, r[1], r[2])
+        if isinstance(r, tuple) and len(r) in (3, 4) and r[0] is INLINE:
+            return self.push_frame(st, fr, t, r[1], r[2], r[3] if len(r) == 4 else None)
         return self.finish_call(st, fr, t, r)
 
     def finish_call(self, st, fr, t, r):
@@ -924,10 +928,11 @@ class Machine:
         fr.bb, fr.si = t["target"], 0
         return None
 
-    def push_frame(self, st, fr, t, body, args):
+    def push_frame(self, st, fr, t, body, args, post=None):
         if len(st.frames) > self.world.inline_depth:
             raise AnalysisError("inline depth exceeded at %s (recursion?)" % body.id)
         nf = Frame(body, st.fresh(), t["dest"], t["target"])
+        nf.post = post
         if body.kind == "closure" and len(args) == 2 and isinstance(args[1], Tup) and body.arg_count != 2:
             args = [args[0]] + list(args[1].fields)
         elif body.kind == "closure" and len(args) == 2 and isinstance(args[1], Tup) and body.arg_count == 2 and len(args[1].fields) == 1:
